@@ -5,7 +5,7 @@ Local Open Scope N_scope.
 (* witness: byte stream from the initial state; expected / actual result of its last byte *)
 Eval vm_compute in ("cex"%string,
   flat_map (fun c =>
-         match explain_C01 syn_set2 c with
+         match (match explain_focus_C01 syn_set2 c with Some t => Some t | None => explain_wide_C01 syn_set2 c end) with
          | Some tail =>
              let bs := path2 (fst c) ++ tail in
              [(bs,
@@ -13,5 +13,5 @@ Eval vm_compute in ("cex"%string,
                enc_sc (match sc_init syn_set2 with Ret s0 => omap (fun os => last os (Ok None)) (outs (scan_machine syn_set2) s0 bs) | Panic => Panic end))]
          | None => []
          end)
-      (firstn 40 (open_C01 syn_set2))).
+      (firstn 24 (open_C01 syn_set2))).
 Eval vm_compute in ("open_cells"%string, N.of_nat (List.length (open_C01 syn_set2))).
